@@ -65,7 +65,7 @@ OPS = (
     "insert", "insert_multiple", "update", "remove", "drop_measurement", "remove_all", "handle_remove_all", "update_all", "remove_everything",
     "insert_out_of_order", "insert_compact", "handle_insert", "insert_multiple3", "update_callable", "update_time", "remove_filtered", "handle_update", "update_unset",
     "remove_suffix", "remove_prefix", "remove_suffix2", "update_last", "update_first", "handle_remove_suffix",
-    "insert_ooo_then_count", "search_only",
+    "insert_ooo_then_count", "search_only", "insert_multiple_unordered", "update_nochange", "remove_nomatch_scan",
 )
 
 
@@ -73,7 +73,7 @@ W_OPS = ("insert", "update", "remove", "drop_measurement", "remove_prefix", "rem
 
 
 def run_op(db, op):
-    from tinyflux import TagQuery, TimeQuery
+    from tinyflux import FieldQuery, TagQuery, TimeQuery
 
     qa = TagQuery().k == "a"
     new1 = MP(T0 + 2_000_000, "m", {"k": "c"}, {"f": 7})
@@ -84,6 +84,8 @@ def run_op(db, op):
         db.insert(to_point(MP(T0 - 5, "m", {"k": "c"}, {"f": 7})))
     elif op == "insert_multiple":
         db.insert_multiple([to_point(new1), to_point(new2)])
+    elif op == "insert_multiple_unordered":  # the batch is not in time order: the prefix is a prefix of the GIVEN order
+        db.insert_multiple([to_point(new2), to_point(MP(T0 - 9, "m", {"k": "e"}, {})), to_point(new1)])
     elif op == "update":
         db.update(qa, fields={"f": 9}, tags={"z": "1"})
     elif op == "insert_compact":
@@ -106,6 +108,10 @@ def run_op(db, op):
         db.insert(to_point(MP(T0 - 5, "m", {"k": "c"}, {"f": 7})))
         db.count(TagQuery().k.exists())
         db.get_timestamps()
+    elif op == "update_nochange":  # rows are staged, nothing changes, no swap
+        db.update(qa, tags={"k": "a"})
+    elif op == "remove_nomatch_scan":  # a query the index cannot answer exactly: the scan stages every row, nothing is removed
+        db.remove(~(FieldQuery().g < 100) & (TagQuery().k == "nomatch"))
     elif op == "search_only":  # a pure read: scans storage or is served by the index
         db.search(TagQuery().k == "a")
         db.all()
@@ -165,6 +171,9 @@ def outcomes(op, big=False):
         return [old, [ch(p.copy()) if p.tags.get("k") == "a" else p for p in old]]
     if op == "insert_multiple":
         return [old, old + [new1], old + [new1, new2]]
+    if op == "insert_multiple_unordered":
+        early = MP(T0 - 9, "m", {"k": "e"}, {})
+        return [old, old + [new2], old + [new2, early], old + [new2, early, new1]]
     if op == "update":
         ch = make_change(fields={"f": 9}, tags={"z": "1"})
         return [old, [ch(p.copy()) if p.tags.get("k") == "a" else p for p in old]]
@@ -178,7 +187,7 @@ def outcomes(op, big=False):
         return [old, [p for p in old if p.m != "m"]]
     if op == "insert_ooo_then_count":
         return [old, old + [MP(T0 - 5, "m", {"k": "c"}, {"f": 7})]]
-    if op == "search_only":
+    if op in ("search_only", "update_nochange", "remove_nomatch_scan"):
         return [old]
     if op == "remove_everything":
         return [old, [p for p in old if "k" not in p.tags]]
@@ -372,6 +381,15 @@ def _after_oserror(h, oks, where, params):
     universe.append(MP(T0 + 9_000_000, "m", {"k": "z"}, {}))
     for p in got:
         require(any(same([p], [u]) for u in universe), lambda: f"{where}: after reopen the file contains a point that was never stored: {show(p)}")
+    # and exactly: the contents after the fault (old or new) with the further operation applied - when that
+    # operation reported success - or one of those with or without it when it raised
+    z = MP(T0 + 9_000_000, "m", {"k": "z"}, {})
+
+    def after_next(o):
+        return o + [z] if nxt == "insert" else [p for p in o if p.tags.get("k") != "b"]
+
+    cands = [after_next(o) for o in oks] + ([] if wrote else list(oks))
+    require(any(same(got, c) for c in cands), lambda: f"{where}: after a further {nxt} ({'succeeded' if wrote else 'raised'}), close and reopen the database holds {show(got)}: not the old/new contents with that operation applied")
 
 
 HARNESS = {"h_crash": h_crash}
